@@ -410,6 +410,13 @@ func (en *Env) fieldOf(x Val, name string) Val {
 	for _, idx := range path {
 		CS := curT.Underlying().(*types.Struct)
 		f := CS.Field(idx)
+		if _, plain := isPlainStruct(f.Type()); curPtr && plain {
+			// a nested struct of an object is itself an object (sub-reference): ghost fields and further fields resolve on it
+			cur = Val{T: types.NewPointer(f.Type()), L: []string{en.ex.subRef(curT, f.Name(), cur.L[0])}}
+			curT = f.Type()
+			curPtr = true
+			continue
+		}
 		if curPtr {
 			cur = en.ex.loadField(en.st, curT, f, cur.L[0])
 		} else {
@@ -757,6 +764,10 @@ func (en *Env) callExpr(e *ECall) Val {
 				return Val{T: types.Typ[types.Int], L: []string{app("strlen", x.L[0])}}
 			case *types.Array:
 				return constInt(big.NewInt(x.T.Underlying().(*types.Array).Len()))
+			case *types.Chan:
+				if id.Name == "cap" {
+					return Val{T: types.Typ[types.Int], L: []string{app(en.ex.declFun("chancap", []string{sInt}, bv64), x.L[0])}}
+				}
 			}
 			en.fail("len of %s", typeKey(x.T))
 		case "base":
